@@ -17,6 +17,8 @@
 //!   expr  <fnpath> ;; <pat> ;; <signature of emitted fn>
 //!   expr1 ...                           same; value wrapped in Some(..), `continue` of the enclosing loop becomes `return None`
 //!   closure <fnpath> ;; <pat> ;; <signature> ;; <call args>   closure expression applied: `(<closure>)(<args>)`
+//!   macro_block <fnpath> ;; <macro> ;; <anchor> ;; <signature> ;; <ret>   `{..}` arm inside a macro (tokio::select!)
+//!   items_in <fnpath> ;; <prefix>       item statements declared inside a fn body, emitted at module level
 //!   sql   <fnpath> ;; <pat> ;; <CONST_NAME>      string literal starting with pat -> pub const
 //! <fnpath> is `name` or `Type::name` or `Trait@Type::name`. A pattern matches a statement or
 //! expression whose whitespace-free token text starts with the whitespace-free pattern; `#n`
@@ -266,6 +268,40 @@ impl VisitMut for ContinueRewriter {
             _ => visit_mut::visit_expr_mut(self, e),
         }
     }
+}
+
+/// token streams of every invocation of a macro (by last path segment) inside a block
+struct MacroFinder {
+    name: String,
+    found: Vec<TokenStream>,
+}
+impl<'a> Visit<'a> for MacroFinder {
+    fn visit_macro(&mut self, m: &'a syn::Macro) {
+        if m.path.segments.last().map(|s| s.ident == self.name).unwrap_or(false) {
+            self.found.push(m.tokens.clone());
+        }
+    }
+}
+/// first brace group whose preceding tokens (since the previous brace group / start) end with
+/// `=>` and contain the anchor text
+fn brace_group_after(ts: TokenStream, anchor: &str) -> Option<Block> {
+    use proc_macro2::{Delimiter, TokenTree};
+    let mut acc = String::new();
+    for t in ts {
+        match &t {
+            TokenTree::Group(g) if g.delimiter() == Delimiter::Brace => {
+                if acc.contains(anchor) && acc.ends_with("=>") {
+                    let b: Result<Block, _> = syn::parse2(t.to_token_stream());
+                    if let Ok(b) = b {
+                        return Some(b);
+                    }
+                }
+                acc.clear();
+            }
+            other => acc.push_str(&strip_ws(&other.to_string())),
+        }
+    }
+    None
 }
 
 struct StmtFinder<'a> {
@@ -715,6 +751,56 @@ fn main() {
                     __verif_apply(#e, #args)
                 })).unwrap();
                 out.items.push(Item::Fn(item));
+            }
+            "macro_block" => {
+                // a `{ .. }` block inside a macro invocation's token stream (e.g. an arm of
+                // `tokio::select!`), found by the text that precedes it; emitted as a fn body.
+                // `continue` of the loop enclosing the macro becomes `return <ret>`.
+                let parts: Vec<&str> = rest.split(";;").map(|s| s.trim()).collect();
+                if parts.len() != 5 {
+                    die(&format!("{ctx}: macro_block needs 5 parts (fn, macro name, anchor text, signature, return expr)"));
+                }
+                let block = find_fn_block(src, parts[0]);
+                let mut mf = MacroFinder { name: parts[1].to_string(), found: vec![] };
+                mf.visit_block(block);
+                let anchor = strip_ws(parts[2]);
+                let mut hit: Option<Block> = None;
+                for ts in mf.found.iter() {
+                    if let Some(b) = brace_group_after(ts.clone(), &anchor) {
+                        hit = Some(b);
+                        break;
+                    }
+                }
+                let mut b = hit.unwrap_or_else(|| die(&format!("{ctx}: no `{{..}}` block after `{}` in any `{}!` invocation", parts[2], parts[1])));
+                let sig: syn::Signature =
+                    syn::parse_str(parts[3]).unwrap_or_else(|e| die(&format!("{ctx}: bad signature: {e}")));
+                let ret: Expr = syn::parse_str(parts[4]).unwrap_or_else(|e| die(&format!("{ctx}: bad return expression: {e}")));
+                let mut rw = ContinueRewriter { depth: 0, with: syn::parse_quote!(return #ret) };
+                rw.visit_block_mut(&mut b);
+                let stmts = &b.stmts;
+                let item: ItemFn = syn::parse2(quote!(pub #sig { #(#stmts)* #ret })).unwrap();
+                out.items.push(Item::Fn(item));
+            }
+            "items_in" => {
+                // item statements (consts, fns) declared INSIDE a function body, emitted at module level
+                let parts: Vec<&str> = rest.split(";;").map(|s| s.trim()).collect();
+                if parts.len() != 2 {
+                    die(&format!("{ctx}: items_in needs 2 parts (fn, item name prefix pattern)"));
+                }
+                let block = find_fn_block(src, parts[0]);
+                let pat = strip_ws(parts[1]);
+                let mut n = 0;
+                for st in &block.stmts {
+                    if let Stmt::Item(it) = st {
+                        if tok(it).starts_with(&pat) {
+                            out.items.push(it.clone());
+                            n += 1;
+                        }
+                    }
+                }
+                if n == 0 {
+                    die(&format!("{ctx}: no item statement starting with `{}`", parts[1]));
+                }
             }
             "sql" => {
                 let parts: Vec<&str> = rest.split(";;").map(|s| s.trim()).collect();
